@@ -3,6 +3,7 @@ package props
 import (
 	"encoding/json"
 	"fmt"
+	"os"
 	"reflect"
 	"runtime"
 	"sort"
@@ -121,14 +122,18 @@ func buildHistories(cs *lab.Case) [][]proto.Step {
 		}
 		// the token index has the same type: keep to parses that complete fewer records than
 		// the type can count (the statement speaks of the input fitting, not of the token count)
-		if r := refpeg.Run(cs.G, 0, big[:65535], 3000000); r.Budget || r.Stats.Completed > 60000 {
-			return out
+		// The tree printers copy the whole input once per node (quadratic, but no property
+		// speaks of speed): keep to derivations small enough for that to take well under a second.
+		if r := refpeg.Run(cs.G, 0, big[:65535], 3000000); r.Budget || r.Stats.Completed > 60000 || len(refpeg.Tokens(r.Root)) > 3000 {
+			big = nil
 		}
-		out = append(out, []proto.Step{
-			{Entry: 0, Input: proto.QStr(string(big[:65535]))},
-			{Entry: 0, Input: proto.QStr(string(body))},
-			{Entry: 0, Input: proto.QStr(string(big[:65534]))},
-		})
+		if big != nil {
+			out = append(out, []proto.Step{
+				{Entry: 0, Input: proto.QStr(string(big[:65535]))},
+				{Entry: 0, Input: proto.QStr(string(body))},
+				{Entry: 0, Input: proto.QStr(string(big[:65534]))},
+			})
+		}
 	}
 	// a history that switches the entry rule between steps
 	if len(cs.G.Rules) >= 2 && len(cs.Inputs) >= 2 {
@@ -139,6 +144,18 @@ func buildHistories(cs *lab.Case) [][]proto.Step {
 		out = append(out, mixed)
 	}
 	return out
+}
+
+func histString(cs *lab.Case, h []proto.Step) string {
+	var steps []string
+	for _, s := range h {
+		st := fmt.Sprintf("%s(%s)", cs.G.Rules[s.Entry].Name, clipQ(string(s.Input)))
+		if s.Again != nil && *s.Again >= 0 {
+			st += fmt.Sprintf(" then Parse(%s) without Reset", cs.G.Rules[*s.Again].Name)
+		}
+		steps = append(steps, st)
+	}
+	return strings.Join(steps, "; ")
 }
 
 // effEntry is the rule whose result a step observes: the second call's when there is one.
@@ -211,6 +228,9 @@ func evalHistories(c *drv.Ctx, cases []*lab.Case, hists [][][]proto.Step, modes 
 		m := modes[ref.mi]
 		if o.Hang {
 			c.Inconclusive = "a history request hit the watchdog"
+			if os.Getenv("VERIF_DEBUG") != "" {
+				fmt.Fprintf(os.Stderr, "---- hang (cpu %.0fs) mode %s history %v\n%s\n", o.Diverged, modeKey(m), histString(cases[ref.ci], h), cases[ref.ci].G.String())
+			}
 			continue
 		}
 		if o.Died != "" || o.Resp.Err != "" {
